@@ -120,16 +120,15 @@ Lemma isort_perm_invariant {A K} (le : A -> A -> bool) (key : A -> K) :
   (forall x y, le x y = true \/ le y x = true) ->
   (forall x y z, le x y = true -> le y z = true -> le x z = true) ->
   (forall x y, le x y = true -> le y x = true -> key x = key y) ->
+  (forall x y, key x = key y -> le x y = true) ->
   forall l1 l2, Permutation l1 l2 -> NoDup (map key l1) -> isort le l1 = isort le l2.
 Proof.
-  intros tot tr anti l1 l2 P N.
+  intros tot tr anti kr l1 l2 P N.
   apply (sort_perm_unique (fun a b => le a b = true /\ key a <> key b)).
   - intros x [_ H]. now apply H.
   - intros x y z [H1 N1] [H2 N2]. split; [eauto|].
     intros E. apply N1. apply anti; [assumption|]. apply (tr y z x); [assumption|].
-    (* le z x from key equality is not available; use totality *)
-    destruct (tot z x) as [C|C]; [assumption|].
-    exfalso. apply N2. apply anti; [assumption|]. eapply tr; [exact C|exact H1].
+    apply kr. now symmetry.
   - rewrite (isort_perm le l1), P. symmetry. apply isort_perm.
   - apply sorted_strict; [now apply isort_sorted|].
     eapply Permutation_NoDup; [|exact N]. apply Permutation_map. symmetry. apply isort_perm.
@@ -157,11 +156,8 @@ Proof.
     rewrite (Hn y) by now left. cbn [negb]. f_equal. apply IHr. intros z Hz. apply Hn. now right.
 Qed.
 
-Lemma firstn_filter_prefix {A} (p : A -> bool) l r n :
-  l = filter p l ++ r -> n = length (filter p l) -> firstn n l = filter p l.
-Proof.
-  intros E ->. rewrite E at 1. rewrite firstn_app, Nat.sub_diag, firstn_all. cbn. apply app_nil_r.
-Qed.
+Lemma firstn_app_exact {A} (a r : list A) : firstn (length a) (a ++ r) = a.
+Proof. rewrite firstn_app, Nat.sub_diag, firstn_all. cbn. apply app_nil_r. Qed.
 
 (* ------------------------------------------------------------ lexicographic order *)
 Lemma lex_le_refl a : lex_le a a = true.
@@ -276,9 +272,8 @@ Lemma select_select {A} (d : A) (o2 iso : list nat) (l : list A) :
   select d (select O o2 iso) l = select d o2 (select d iso l).
 Proof.
   intros H. unfold select. rewrite map_map. apply map_ext_in. intros j Hj.
-  rewrite (nth_indep _ d (nth (length l) l d)).
-  - now rewrite (map_nth (fun i => nth i l d)), nth_overflow by lia.
-  - rewrite map_length. now apply H.
+  symmetry. rewrite (nth_indep _ d (nth O l d)) by (rewrite map_length; now apply H).
+  apply (map_nth (fun i => nth i l d)).
 Qed.
 
 Lemma select_map {A B} (f : A -> B) (d : A) idx l : select (f d) idx (map f l) = map f (select d idx l).
